@@ -193,3 +193,129 @@ pub fn self_test() -> Result<(), String> {
     }
     Ok(())
 }
+
+// ------------------------------------------------------------------------------------------------
+// Reference evaluation of an MMR multi-proof (used to CLASSIFY accepted proofs with false claims:
+// do the entries the verification uses hash to the committed root - a structural ambiguity of the
+// tree encoding - or not - a defect of the verification itself?)
+
+/// shape (no hashing) of the MMR with `n` leaves
+fn skeleton(n: usize) -> RefMmr {
+    let mut m = RefMmr { nodes: vec![], children: vec![], parent: vec![], leaf_pos: vec![], peaks: vec![] };
+    for _ in 0..n {
+        let pos = m.nodes.len();
+        m.nodes.push((0, vec![]));
+        m.children.push(None);
+        m.parent.push(None);
+        m.leaf_pos.push(pos as u64);
+        m.peaks.push((0, pos));
+        while m.peaks.len() >= 2 && m.peaks[m.peaks.len() - 1].0 == m.peaks[m.peaks.len() - 2].0 {
+            let (h, r) = m.peaks.pop().unwrap();
+            let (_, l) = m.peaks.pop().unwrap();
+            let p = m.nodes.len();
+            m.nodes.push((h + 1, vec![]));
+            m.children.push(Some((l, r)));
+            m.parent.push(None);
+            m.parent[l] = Some(p);
+            m.parent[r] = Some(p);
+            m.peaks.push((h + 1, p));
+        }
+    }
+    m
+}
+
+/// number of leaves of the largest MMR that fits into `size` nodes when perfect trees of strictly
+/// decreasing size are taken greedily (a valid mmr_size maps to its own leaf count)
+fn leaves_for_size(size: u64) -> Option<usize> {
+    if size == 0 || size > (1 << 24) {
+        return None;
+    }
+    let mut rest = size;
+    let mut leaves = 0u64;
+    let mut tree = (u64::MAX >> size.leading_zeros()) as u64; // 2^k - 1 >= size
+    while tree > 0 {
+        if rest >= tree {
+            rest -= tree;
+            leaves += (tree + 1) / 2;
+        }
+        tree >>= 1;
+    }
+    Some(leaves as usize)
+}
+
+/// Root obtained from `entries` (position, value) and the proof `items` for an MMR of `mmr_size`
+/// nodes: entries sorted by position, the first entry of a position wins; per peak from the left the
+/// entries are folded level by level (sibling = next entry or next item), a peak without entries is
+/// the next item; one more item may stand for the bagged right-hand peaks; peaks are bagged from the
+/// right with H(right || left). None when the material does not fit.
+pub fn mmr_eval(mmr_size: u64, entries: &[(u64, Bytes)], items: &[Bytes]) -> Option<Bytes> {
+    let mut e: Vec<(u64, Bytes)> = entries.to_vec();
+    e.sort_by_key(|x| x.0);
+    e.dedup_by(|a, b| a.0 == b.0);
+    if mmr_size == 1 && e.len() == 1 && e[0].0 == 0 {
+        return Some(e[0].1.clone());
+    }
+    let sk = skeleton(leaves_for_size(mmr_size)?);
+    let total = sk.nodes.len() as u64;
+    if e.iter().any(|(p, _)| *p >= total || sk.nodes[*p as usize].0 != 0) {
+        return None;
+    }
+    let mut it = items.iter();
+    let mut rest = e.as_slice();
+    let mut peaks_hashes: Vec<Bytes> = vec![];
+    for (_, peak) in &sk.peaks {
+        let k = rest.iter().take_while(|(p, _)| (*p as usize) <= *peak).count();
+        let (group, r) = rest.split_at(k);
+        rest = r;
+        let v = if group.len() == 1 && group[0].0 as usize == *peak {
+            group[0].1.clone()
+        } else if group.is_empty() {
+            match it.next() {
+                Some(x) => x.clone(),
+                None => break,
+            }
+        } else {
+            let mut cur: Vec<(usize, Bytes)> = group.iter().map(|(p, v)| (*p as usize, v.clone())).collect();
+            loop {
+                if cur.len() == 1 && cur[0].0 == *peak {
+                    break cur.pop().unwrap().1;
+                }
+                let mut next = vec![];
+                let mut i = 0;
+                while i < cur.len() {
+                    let (pos, v) = &cur[i];
+                    let parent = sk.parent[*pos]?;
+                    let (l, r) = sk.children[parent]?;
+                    let merged = if *pos == l {
+                        if i + 1 < cur.len() && cur[i + 1].0 == r {
+                            i += 1;
+                            h2s(v, &cur[i].1)
+                        } else {
+                            h2s(v, it.next()?)
+                        }
+                    } else {
+                        h2s(it.next()?, v)
+                    };
+                    next.push((parent, merged));
+                    i += 1;
+                }
+                cur = next;
+            }
+        };
+        peaks_hashes.push(v);
+    }
+    if !rest.is_empty() {
+        return None;
+    }
+    if let Some(x) = it.next() {
+        peaks_hashes.push(x.clone());
+    }
+    if it.next().is_some() {
+        return None;
+    }
+    let mut acc = peaks_hashes.pop()?;
+    while let Some(p) = peaks_hashes.pop() {
+        acc = h2s(&acc, &p);
+    }
+    Some(acc)
+}
